@@ -8,7 +8,8 @@
 (*               memo it is entered);                                                            *)
 (*   Scribble    the caller overwrites its input buffer: the value it was just handed must not   *)
 (*               change (it never aliases the input);                                            *)
-(*   Recheck(i)  an earlier returned value is unchanged, unless the producing call is one of the *)
+(*   Recheck(i)  EVERY earlier result (trees, delivered values, buffers, strings, error values)   *)
+(*               is unchanged (operator Stable), unless the producing call is one of the        *)
 (*               documented exceptions (Reuse = TRUE, or a buffer-returning API), which on the   *)
 (*               same instance may be overwritten by any later call.                             *)
 (* These three judgements are the operators CallConforms, ScribbleConforms, RecheckConforms; the *)
@@ -49,6 +50,11 @@ CallConforms(memo, arg, res) == arg \notin DOMAIN memo \/ memo[arg] = res
 ScribbleConforms(handed, afterScribble) == afterScribble = handed
 Exempted(mode) == mode \in {"buf", "reuse"}
 RecheckConforms(mode, snapshot, now) == Exempted(mode) \/ now = snapshot
+\* The law "results handed out earlier are not changed by later calls", for EVERY kind of result: what a call
+\* handed to its caller is a record [v: returned trees / delivered values / []byte and string results,
+\* e: the error VALUE (text, Line/Column and Message of the ParseError errors.As finds in it)]. The documented
+\* exceptions only cover v; an error value handed out is never rewritten.
+Stable(mode, handedOut, now) == RecheckConforms(mode, handedOut.v, now.v) /\ now.e = handedOut.e
 
 ----------------------------------------------------------------------------
 VARIABLES hist,      \* the call history (menu indexes)
